@@ -12,7 +12,11 @@ import (
 	"sort"
 )
 
-// StrListEncoder encodes string slice. Max bytes size for each string is 65536 bytes
+// MaxStrLen is the maximum number of bytes of a single string in a StrList
+// (its length is encoded in 16 bits)
+const MaxStrLen = 65535
+
+// StrListEncoder encodes string slice. Max bytes size for each string is 65535 bytes
 type StrListEncoder struct {
 	buf          []byte
 	reuseRecords bool
@@ -39,16 +43,16 @@ func (e *StrListEncoder) Encode(sl []string) []byte {
 		panic(fmt.Errorf("slice length is too long (%d > 4294967296)", len(sl)))
 	}
 	binary.BigEndian.PutUint32(e.buf, uint32(len(sl)))
-	var offset uint16 = 4
+	offset := 4
 	for _, s := range sl {
-		if len(s) > 65536 {
-			panic(fmt.Errorf("cell value %q is too long (%d > 65536)", s[:40]+"...", len(s)))
+		if len(s) > MaxStrLen {
+			panic(fmt.Errorf("cell value %q is too long (%d > %d)", s[:40]+"...", len(s), MaxStrLen))
 		}
 		l := uint16(len(s))
 		binary.BigEndian.PutUint16(e.buf[offset:], l)
 		offset += 2
 		copy(e.buf[offset:], s)
-		offset += l
+		offset += len(s)
 	}
 	b := e.buf
 	if !e.reuseRecords {
@@ -90,7 +94,7 @@ func (d *StrListDecoder) strSlice(n uint32) []string {
 func (d *StrListDecoder) Decode(b []byte) []string {
 	count := binary.BigEndian.Uint32(b)
 	sl := d.strSlice(count)
-	var offset uint16 = 4
+	offset := 4
 	var i uint32
 	for i = 0; i < count; i++ {
 		l := binary.BigEndian.Uint16(b[offset:])
@@ -101,7 +105,7 @@ func (d *StrListDecoder) Decode(b []byte) []string {
 		}
 		d.ensureBufSize(int(l))
 		copy(d.buf[:l], b[offset:])
-		offset += l
+		offset += int(l)
 		sl = append(sl, string(d.buf[:l]))
 	}
 	return sl
